@@ -37,18 +37,18 @@ func init() {
 		Subs: []*run.Sub{
 			{Name: "registers", N: func(t string) uint64 {
 				if t == "thorough" {
-					return 2_000_000
+					return 16_000_000
 				}
-				return 120_000
+				return 400_000
 			}, Run: c19Registers,
 				Rule: "register-level oracle: gradient value, stop registers, matrix registers, untouched other registers, selectors restored, errors before any write",
 				Min: map[string]int64{"accepted": 20000, "rejected_too_many": 5000, "rejected_csel_in_range": 2000, "on_encoder": 20000, "on_renderer": 20000, "prior_increments": 20000,
 					"stops_58": 200, "stops_256_to_314": 1000, "renderer_csel_unreduced": 1000}},
 			{Name: "geometry", N: func(t string) uint64 {
 				if t == "thorough" {
-					return 1_000_000
+					return 8_000_000
 				}
-				return 60_000
+				return 200_000
 			}, Run: c19Geometry,
 				Rule: "rendered oracle: offsets at the characteristic points of the requested geometry, stops/spread/shape of the rendered paint; direct and via bytes",
 				Min:  map[string]int64{"linear": 5000, "circular": 5000, "elliptical": 5000, "general": 5000, "via_bytes": 10000, "direct": 10000}},
